@@ -27,7 +27,7 @@ TRUSTED = [
 ]
 ASSUMPTIONS = [
     "the new unit's id is not in the baseline and not already in the feed",
-    "bootstrap: the new unit's state has baseline units (the excluded point is known finding KF-2)",
+    "none on the unit's state: an unexpected unit from a state without baseline units is covered (fix F-17, former KF-2)",
 ]
 RULE = (
     "generated elections x 1-3 extra unexpected rows (kinds above) x aggregate lists x 3 estimators; every pair non-trivial; "
@@ -151,10 +151,11 @@ def explore(run, driver, budget):
         e = case["election"]
         if i >= len(dedicated) and pi == "bootstrap" and "county_fips" not in case["aggregates"] and e.unit_type != "county":
             case["aggregates"] = case["aggregates"] + ["county_fips"]
-        # bootstrap: an unexpected unit from a state without baseline units is known finding KF-2; one dedicated pair per run
+        # bootstrap: an unexpected unit from a state without baseline units changed every draw of the run until fix F-17 (former
+        # known finding KF-2); unknown states are part of the normal stream and one pair per run is dedicated to them
         kinds = None
-        if pi == "bootstrap":
-            kinds = ["unknown-state"] if i == 2 else ["known-county", "unknown-county", "known-county"]
+        if pi == "bootstrap" and i == len(dedicated) + 2:
+            kinds = ["unknown-state"]
         e2, new = add_rows(rng, e, kinds=kinds)
         if not new:
             continue
@@ -264,7 +265,7 @@ def check_pair(run, driver, case, caseB, new, pi):
         if bad:
             run.violation("an unexpected unit changed something other than its own votes: " + bad[0], input=L, impl=[str(x) for x in bad[1:]],
                           predicate="unexpected_adds_votes / other_groups_unchanged / groups_after_unexpected",
-                          signature="KF-2" if kf2 else "C11:effect", replay_case=A.case_json(caseB), base_case=A.case_json(case))
+                          signature="C11:effect", replay_case=A.case_json(caseB), base_case=A.case_json(case))
 
 
 def replay(run, driver, payload):
